@@ -168,148 +168,152 @@ SORTED, SORT2TABLE, TABLEROWS, PITALL, PITCOMP, PITCOMPPOS, ELEM, SCALAR, TOP = 
 
 
 class OrderKinds:
-    def __init__(self, fi):
-        self.fi = fi
-        self.env = {}
+    """order-kind inference on whole-function terms (arrnf): which row order an array is in follows from how it was computed,
+    not from what a local is called or how the statements are grouped"""
+
+    def __init__(self, ix, fi):
+        from ..arrnf import ANF
+        self.ix, self.fi = ix, fi
+        ps = fi.params()
+        self.r = ANF(ix, fi, param_alias={ps[0]: "net", ps[1]: "branch_results", ps[2]: "table_name"}).run()
+        self.memo = {}
         self.findings = []
         self.stores = []
-        self.range_names = None
+        self.resolved = {}
 
-    def is_range(self, sl):
-        return isinstance(sl, ast.Slice) and self.range_names is not None and isinstance(sl.lower, ast.Name) and isinstance(sl.upper, ast.Name) \
-            and (sl.lower.id, sl.upper.id) == self.range_names and sl.step is None
+    # -- helpers
+    def _is_range(self, sl):
+        """slice lo:hi with (lo, hi) the two components of get_lookup(net, 'branch', 'from_to')[table]"""
+        if sl[0] != "slice" or sl[3] != ("c", None):
+            return False
+        def comp(t, k):
+            if t[0] == "proj" and t[2] == k:
+                t = t[1]
+            elif t[0] == "idx" and t[2] == (("c", k),):
+                t = t[1]
+            else:
+                return None
+            if t[0] == "idx" and t[1][0] == "call" and t[1][1][0] == "f" and t[1][1][1].endswith(".get_lookup") \
+                    and ("c", "from_to") in t[1][2]:
+                return t
+            return None
+        a, b = comp(sl[1], 0), comp(sl[2], 1)
+        return a is not None and b is not None and a == b
 
-    def run(self):
-        self.block(self.fi.node.body)
-        return self
-
-    def block(self, stmts):
-        for st in stmts:
-            if isinstance(st, ast.Assign):
-                k = self.kind(st.value)
-                # `lo, hi = get_lookup(net, "branch", "from_to")[table]`: the component's row range in the pit
-                v = st.value
-                if isinstance(v, ast.Subscript) and isinstance(v.value, ast.Call) and callee_name(v.value) == "get_lookup" \
-                        and any(const_str(a) == "from_to" for a in v.value.args) and isinstance(st.targets[0], ast.Tuple) \
-                        and len(st.targets[0].elts) == 2 and all(isinstance(e, ast.Name) for e in st.targets[0].elts):
-                    self.range_names = tuple(e.id for e in st.targets[0].elts)
-                for t in st.targets:
-                    self.bind(t, k, st.value)
-            elif isinstance(st, ast.For):
-                # loop variables over literal tuples / parameters carry no order
-                for n in ast.walk(st.target):
-                    if isinstance(n, ast.Name):
-                        self.env[n.id] = TOP
-                self.block(st.body)
-            elif isinstance(st, ast.If):
-                self.block(st.body)
-                self.block(st.orelse)
-            elif isinstance(st, ast.Expr):
-                self.kind(st.value)
-
-    def bind(self, t, k, value):
-        if isinstance(t, ast.Name):
-            self.env[t.id] = k
-        elif isinstance(t, (ast.Tuple, ast.List)):
-            for e in t.elts:
-                self.bind(e, k if k in (SORTED,) else TOP, value)
-        elif isinstance(t, ast.Subscript):
-            # res_table[name].values[I] = V
-            if isinstance(t.value, ast.Attribute) and t.value.attr == "values" or \
-                    (isinstance(t.value, ast.Subscript) and isinstance(t.value.value, ast.Attribute) and t.value.value.attr == "values"):
-                ki = self.kind(t.slice)
-                self.stores.append((t, ki, k))
-                ok = (ki == TABLEROWS and k == SORTED) or (ki == ELEM and k == ELEM) or (ki == PITCOMP and k == PITCOMP) \
-                    or (ki == ELEM and k in (TOP, SCALAR)) or ki == TOP or k == TOP and ki in (PITCOMP,)
-                if not ok:
-                    self.findings.append((t, "result rows selected in %s receive values in %s" % (ki, k)))
-
-    def kind(self, e):
-        if isinstance(e, ast.Constant):
+    def _combine(self, node, kinds):
+        ks = set(kinds) - {SCALAR}
+        if len(ks) == 1:
+            return ks.pop()
+        if not ks:
             return SCALAR
-        if isinstance(e, ast.Name):
-            return self.env.get(e.id, TOP)
-        if isinstance(e, ast.Call):
-            f = callee_name(e)
-            if f == "_sum_by_group":
-                for a in e.args:
-                    self.kind(a)
-                return SORTED
-            if f == "argsort":
-                arg = e.args[0] if e.args else (e.func.value if isinstance(e.func, ast.Attribute) else None)
-                if arg is not None and any(isinstance(n, ast.Attribute) and n.attr == "index" for n in ast.walk(arg)):
-                    return SORT2TABLE
-                return TOP
-            if f in ("cumsum", "astype", "abs", "copy", "ones_like", "zeros_like", "round"):
-                inner = e.func.value if isinstance(e.func, ast.Attribute) and not isinstance(e.func.value, ast.Name) else (e.args[0] if e.args else None)
-                if isinstance(e.func, ast.Attribute) and isinstance(e.func.value, ast.Name) and e.func.value.id not in ("np", "numpy"):
-                    inner = e.func.value
-                return self.kind(inner) if inner is not None else TOP
-            if f in ("flatnonzero", "where", "nonzero"):
-                k = self.kind(e.args[0]) if e.args else TOP
-                return PITCOMPPOS if k == PITCOMP else (SORTED if k == SORTED else TOP)
-            if f == "append":
-                ks = {self.kind(a) for a in e.args} - {SCALAR}
-                return ks.pop() if len(ks) == 1 else TOP
-            if f == "get_lookup":
-                return PITALL if any(const_str(a) and "active" in const_str(a) for a in e.args) or any(
-                    isinstance(a, ast.BinOp) and "active" in U(a) for a in e.args) else TOP
-            return TOP
-        if isinstance(e, ast.BinOp) or isinstance(e, ast.Compare) or isinstance(e, ast.BoolOp):
-            parts = [e.left, e.right] if isinstance(e, ast.BinOp) else ([e.left] + list(e.comparators) if isinstance(e, ast.Compare) else e.values)
-            ks = {self.kind(p) for p in parts} - {SCALAR}
-            if len(ks) == 1:
-                return ks.pop()
-            if not ks:
-                return SCALAR
-            if SORTED in ks and (PITCOMP in ks or PITALL in ks or ELEM in ks):
-                self.findings.append((e, "arithmetic mixes %s" % " and ".join(sorted(ks))))
-            return TOP
-        if isinstance(e, ast.UnaryOp):
-            return self.kind(e.operand)
-        if isinstance(e, ast.Attribute):
-            return self.kind(e.value) if e.attr in ("values", "T") else TOP
-        if isinstance(e, ast.Subscript):
-            base = self.kind_base(e.value)
-            sl = e.slice
-            if isinstance(sl, ast.Slice):
-                if base == PITALL and self.is_range(sl):
-                    return PITCOMP
-                return base
-            if isinstance(sl, ast.Tuple):
-                if self.is_range(sl.elts[0]):
-                    return PITCOMP
-                ki = self.kind(sl.elts[0])
-                return self.index(e, base, ki)
-            ki = self.kind(sl)
-            return self.index(e, base, ki)
-        if isinstance(e, (ast.List, ast.Tuple)):
-            for x in e.elts:
-                self.kind(x)
-            return TOP
-        if isinstance(e, ast.Starred):
-            return self.kind(e.value)
-        if isinstance(e, ast.ListComp):
-            for g_ in e.generators:
-                for n in ast.walk(g_.target):
-                    if isinstance(n, ast.Name):
-                        self.env[n.id] = TOP
-            return self.kind(e.elt)
+        if SORTED in ks and (PITCOMP in ks or PITALL in ks or ELEM in ks):
+            self.findings.append((node, "arithmetic mixes %s" % " and ".join(sorted(ks))))
         return TOP
 
-    def kind_base(self, v):
-        s = U(v)
-        if isinstance(v, ast.Subscript) and U(v.value) == "branch_results":
-            return PITALL
-        if s in ("branch_pit", "node_pit"):
-            return PITALL
-        if isinstance(v, ast.Subscript) and isinstance(v.value, ast.Name) and self.env.get(v.value.id) == SORTED:
-            return SORTED
-        return self.kind(v)
+    def kind(self, t):
+        from ..arrnf import key as tkey
+        if not isinstance(t, tuple) or not t:
+            return TOP
+        k_ = id(t)
+        if k_ in self.memo and self.memo[k_][0] is t:
+            return self.memo[k_][1]
+        v = self._kind(t)
+        self.memo[k_] = (t, v)
+        if v not in (TOP, SCALAR):
+            self.resolved[tkey(t)] = v
+        return v
 
-    def index(self, node, base, ki):
+    def _kind(self, t):
+        h = t[0]
+        if h == "c":
+            return SCALAR
+        if h in ("n", "loop", "carried", "phi", "k", "b", "f", "x"):
+            return TOP
+        if h == "call":
+            fn = t[1]
+            if fn[0] == "f" and fn[1].endswith("._sum_by_group"):
+                for a in t[2]:
+                    self.kind(a)
+                return SORTED
+            name = fn[1].rsplit(".", 1)[-1] if fn[0] in ("x", "f") else (fn[2] if fn[0] == "attr" else "")
+            args = list(t[2]) + ([fn[1]] if fn[0] == "attr" else [])
+            if name == "argsort":
+                from ..arrnf import walk
+                if args and any(x[0] == "attr" and x[2] == "index" for x in walk(args[0])):
+                    return SORT2TABLE
+                return TOP
+            if name in ("cumsum", "abs", "absolute", "ones_like", "zeros_like", "round", "array", "asarray", "nan_to_num"):
+                return self.kind(args[0]) if args else TOP
+            if name in ("where", "nonzero", "flatnonzero"):
+                k = self.kind(args[0]) if args else TOP
+                return PITCOMPPOS if k == PITCOMP else (SORTED if k == SORTED else TOP)
+            if name in ("append", "concatenate"):
+                return self._combine(t, [self.kind(a) for a in args])
+            if fn[0] == "f" and fn[1].endswith(".get_lookup"):
+                act = any((a[0] == "c" and isinstance(a[1], str) and "active" in a[1]) or
+                          (a[0] == "cat" and any(x[0] == "c" and "active" in str(x[1]) for x in a[1])) for a in t[2])
+                return PITALL if act else TOP
+            for a in args:
+                self.kind(a)
+            return TOP
+        if h == "proj":
+            k = self.kind(t[1])
+            if k == SORTED:
+                return SORTED
+            if t[1][0] == "call" and t[1][1] in (("x", "numpy.where"), ("x", "numpy.nonzero")):
+                return k
+            return TOP
+        if h in ("opn", "op", "cmp", "bool"):
+            parts = t[2] if h in ("opn", "bool") else t[2:4]
+            return self._combine(t, [self.kind(p) for p in parts])
+        if h == "u":
+            return self.kind(t[2])
+        if h == "attr":
+            return self.kind(t[1]) if t[2] in ("values", "T") else TOP
+        if h == "ite":
+            self.kind(t[1])
+            return self._combine(t, [self.kind(t[2]), self.kind(t[3])])
+        if h == "upd":
+            return self.kind(t[1])
+        if h == "idx":
+            return self._index_term(t)
+        if h in ("list", "tuple", "set"):
+            for x in t[1]:
+                self.kind(x)
+            return TOP
+        if h == "comp":
+            self.kind(t[2])
+            return TOP
+        return TOP
+
+    def _base_kind(self, b):
+        if b[0] == "idx" and b[1] == ("n", "branch_results"):
+            return PITALL
+        if b == ("idx", ("idx", ("n", "net"), (("c", "_pit"),)), (("c", "branch"),)) or b == ("idx", ("idx", ("n", "net"), (("c", "_pit"),)), (("c", "node"),)):
+            return PITALL
+        return self.kind(b)
+
+    def _index_term(self, t):
+        base, idx = t[1], t[2]
+        bk = self._base_kind(base)
+        first = idx[0]
+        if first[0] == "slice":
+            if bk == PITALL and self._is_range(first):
+                return PITCOMP
+            if bk == SORTED and (base[0] == "call" or base[0] == "proj"):
+                return SORTED       # a tail of the tuple of grouped outputs
+            return bk
+        if len(idx) == 2:
+            ki = self.kind(first)
+            return self._index(t, bk, ki)
+        ki = self.kind(first)
+        if bk == SORTED and (base[0] == "call" or (base[0] == "idx" and base[2][0][0] == "slice")) and ki in (SCALAR, TOP):
+            return SORTED           # res[k]: the k-th output array of _sum_by_group
+        return self._index(t, bk, ki)
+
+    def _index(self, node, base, ki):
         if ki == SCALAR:
-            return SORTED if base == SORTED else TOP      # res[k]: the k-th output array of _sum_by_group
+            return SORTED if base == SORTED else TOP
         if ki == TOP:
             return TOP
         if base in (PITALL, PITCOMP) and ki == SORTED:
@@ -334,38 +338,62 @@ class OrderKinds:
             self.findings.append((node, "%s indexed with %s" % (base, ki)))
         return TOP
 
+    def run(self):
+        from ..arrnf import base_of
+        for e in self.r.events:
+            if e.kind == "store":
+                b = e.base
+                # res_table[name].values[I] = V   (also .values[:][I])
+                inner = b
+                if inner[0] == "idx" and inner[2] and inner[2][0][0] == "slice":
+                    inner = inner[1]
+                if inner[0] == "attr" and inner[2] == "values" and len(e.index) == 1:
+                    ki = self.kind(e.index[0])
+                    kv = self.kind(e.value)
+                    self.stores.append((e, ki, kv))
+                    ok = (ki == TABLEROWS and kv == SORTED) or (ki == ELEM and kv == ELEM) or (ki == PITCOMP and kv == PITCOMP) \
+                        or (ki == ELEM and kv in (TOP, SCALAR)) or ki == TOP or kv == TOP and ki in (PITCOMP,)
+                    if not ok:
+                        self.findings.append((("idx", b, e.index), "result rows selected in %s receive values in %s" % (ki, kv)))
+                else:
+                    for x in e.index:
+                        self.kind(x)
+                    self.kind(e.value)
+            elif e.kind == "call":
+                self.kind(e.term)
+        return self
+
 
 def r6_2(run):
+    from ..arrnf import expect, key as tkey, show as tshow, walk
     ix = run.index
     f = ix.func(RE_ + ".extract_branch_results_with_internals")
     run.analysed(f)
-    ok_ = OrderKinds(f).run()
+    ok_ = OrderKinds(ix, f).run()
     w = run.where(f, f.node)
     run.stat("order_kind_stores", len(ok_.stores))
-    resolved = {k: v for k, v in ok_.env.items() if v not in (TOP, SCALAR)}
-    run.ob("with-internals|kinds-resolved", len(resolved) >= 6 and SORTED in resolved.values() and PITCOMP in resolved.values(),
-           "order kinds inferred for %d arrays: %s" % (len(resolved), {k: v for k, v in sorted(resolved.items())}), w)
+    kinds_seen = set(ok_.resolved.values())
+    run.ob("with-internals|kinds-resolved", len(ok_.resolved) >= 6 and SORTED in kinds_seen and PITCOMP in kinds_seen,
+           "order kinds inferred for %d array terms: %s" % (len(ok_.resolved), sorted(kinds_seen)), w)
     seen = set()
     for node, msg in ok_.findings:
-        key = U(node).replace(" ", "")[:80]
+        key = tshow(node).replace(" ", "")[:80]
         if key in seen:
             continue
         seen.add(key)
-        run.ob("with-internals|order-mix|%s" % key, False, "arrays of different row orders are combined: %s" % msg, run.where(f, node))
+        run.ob("with-internals|order-mix|%s" % key, False, "arrays of different row orders are combined: %s" % msg, w)
     run.ob("with-internals|no-order-mix", not ok_.findings,
            "no pit-order array is indexed with sorted-order positions and no values are stored in rows of another order", w)
-    for t, ki, kv in ok_.stores:
-        run.ob("with-internals|store|%s" % U(t).replace(" ", "")[:70], not (ki == TOP and kv in (SORTED, ELEM)),
-               "result rows (%s) and stored values (%s) are in the same order" % (ki, kv), run.where(f, t))
+    for e, ki, kv in ok_.stores:
+        run.ob("with-internals|store|%s" % tshow(("idx", e.base, e.index)).replace(" ", "")[:70], not (ki == TOP and kv in (SORTED, ELEM)),
+               "result rows (%s) and stored values (%s) are in the same order" % (ki, kv), run.where(f, e.node))
     # the placement table really converts sorted order into table rows
-    from ..arrnf import ANF, expect, key as tkey, walk
-    ra = ANF(ix, f).run()
-    want = expect(ix, f, "np.argsort(net[%s].index.values)" % f.params()[2])
-    n_pt = sum(1 for x in (t for e in ra.events for t in ([e.value] + list(e.index) if e.kind == "store" else [])) for y in walk(x) if tkey(y) == tkey(want))
-    placement = [k for k, v in ok_.env.items() if v == SORT2TABLE]
-    run.ob("with-internals|placement-table", len(placement) == 1 and n_pt >= 1,
+    want = expect(ix, f, "np.argsort(net[table_name].index.values)", env={"net": ("n", "net"), "table_name": ("n", "table_name")})
+    placement = {k for k, v in ok_.resolved.items() if v == SORT2TABLE}
+    used = any(ok_.kind(e.index[0]) == TABLEROWS and any(tkey(y) == tkey(want) for y in walk(e.index[0])) for e, ki, kv in ok_.stores)
+    run.ob("with-internals|placement-table", placement == {tkey(want)} and used,
            "the rows of sorted-order results are selected through argsort of the table index (sorted position -> table row)", w,
-           detail=str(placement))
+           detail=str(len(placement)))
     run.floor(5)
 
 
@@ -400,13 +428,34 @@ def r6_3(run):
     va = f_nb.node.args.vararg.arg
     rets = sorted(r.returns(), key=lambda e: e.seq)
     w = run.where(f_nb, f_nb.node)
-    last = rets[-1] if rets else None
-    fb = last is not None and last.value == ("call", ("f", f_np.qualname), (("n", "indices"), ("star", ("n", va))), ()) \
-        and all(not norm_cond(c, p_)[1] for c, p_ in last.cond)      # reached whenever no earlier branch returned
+    fb_call = ("call", ("f", f_np.qualname), (("n", "indices"), ("star", ("n", va))), ())
     dense = [e for e in rets if any(x[0] == "call" and x[1][0] == "f" and x[1][1].endswith("._sum_values_by_index") for x in walk(e.value))]
-    bound = bool(dense) and all(any(contains(c, ("call", ("f", IT + ".max_nb"), (("n", "indices"),), ())) or "max" in tshow(c) for c, p in e.cond) for e in dense)
+    fallback = [e for e in rets if e.value == fb_call]
+    other = [e for e in rets if e not in dense and e not in fallback]
+    # every remaining return is the trivial one for empty input: (indices, *values) unchanged
+    def trivial(e):
+        v = e.value
+        if v[0] == "call" and v[1] == ("x", "builtins.tuple") and len(v[2]) == 1:
+            v = v[2][0]
+        flat = []
+        def items(t):
+            if t[0] in ("list", "tuple"):
+                for x in t[1]:
+                    items(x) if x[0] in ("list", "tuple") else flat.append(x)
+            elif t[0] == "op" and t[1] == "++":
+                items(t[2]); items(t[3])
+            elif t[0] == "call" and t[1] == ("x", "builtins.list") and len(t[2]) == 1:
+                flat.append(("star", t[2][0]))
+            else:
+                flat.append(t)
+        items(v)
+        return flat == [("n", "indices"), ("star", ("n", va))]
+    mx = ("call", ("f", IT + ".max_nb"), (("n", "indices"),), ())
+    bound = bool(dense) and all(any(contains(c, mx) for c, p in e.cond) for e in dense)
+    fb = bool(fallback) and all(trivial(e) for e in other) and all(any(contains(c, mx) for c, p in e.cond) for e in fallback)
     run.ob("numba|falls-back-outside-bound", fb and bound,
-           "_sum_by_group_numba uses the dense kernel only under its index bound and otherwise the numpy implementation", w)
+           "_sum_by_group_numba uses the dense kernel only under its index bound and otherwise the numpy implementation", w,
+           detail="%d dense, %d fallback, %d other returns" % (len(dense), len(fallback), len(other)))
     ok = False
     for e in dense:
         v = e.value
@@ -425,8 +474,14 @@ def r6_3(run):
     ok = len(rets) == 1 and rets[0].value[0] == "call" and rets[0].value[1] == ("f", f_sorted.qualname) \
         and tkey(rets[0].value[2][0]) == tkey(("idx", ("n", "indices"), (order,)))
     st = [s_ for s_ in r.stores() if s_.loops]
-    ok = ok and len(st) == 1 and st[0].value[0] == "idx" and st[0].value[2] == (order,) and st[0].index == (("loop", st[0].loops[-1], 0),) \
+    # the value arrays: permuted one by one in a loop over the list, or by a comprehension over the value arrays
+    in_loop = len(st) == 1 and st[0].value[0] == "idx" and st[0].value[2] == (order,) and st[0].index == (("loop", st[0].loops[-1], 0),) \
         and st[0].value[1] == ("idx", base_of(st[0].base), st[0].index)
+    rest = rets[0].value[2][1:] if ok else ()
+    by_comp = len(rest) == 1 and rest[0][0] == "star" and rest[0][1][0] == "comp" and rest[0][1][1] == "ListComp" \
+        and rest[0][1][2] == ("idx", ("b", 0), (order,)) and len(rest[0][1][3]) == 1 and rest[0][1][3][0][1] == ("n", f_np.node.args.vararg.arg) \
+        and not rest[0][1][3][0][2]
+    ok = ok and (in_loop or by_comp)
     run.ob("numpy|sorts-indices-and-values-together", ok, "indices and every value array are permuted by the same argsort",
            run.where(f_np, f_np.node))
     ps = f_sorted.params()
